@@ -37,7 +37,7 @@ pub async fn scenario() {
 	let sweep_base = rt::param("sweep_base").is_some();
 	let entry = *rt::pick("entry", &[Entry::Default, Entry::Tower, Entry::Default]);
 	let buf_cap = *rt::pick("buf_cap", &[1024u32, 1, 2]);
-	let frag = if rt::chance("frag", 1, 4) { Frag { short: true, latency_ms: 2, cap: 0 } } else { Frag::default() };
+	let frag = if rt::chance("frag", 1, 4) { Frag { short: true, latency_ms: 2, cap: *rt::pick("stream_cap", &[0usize, 48, 200]) } } else { Frag::default() };
 	let n_ws = rt::draw("n_ws", 3) as usize;
 	let n_http = rt::draw("n_http", 3) as usize;
 	let n_steps = rt::draw_range("n_steps", 2, 12);
